@@ -321,7 +321,7 @@ def tr(stmts, cont, env):
         return env.inner("pairs", (m.group(1), m.group(2)), m.group(3), body, env) + tr(rest, cont, env)
     # --- fresh name
     m = re.fullmatch(r"let (" + ID + r") = make_unique_group_name\( ?Name::new\(&format!\(" + STR + r", (" + ID + r")\.replace\("
-                     + STR + r", \"\"\)\)\)\.unwrap\(\), &(" + ID + r"),? ?\);", s)
+                     + STR + r", \"\"\)\)\)\.unwrap\(\), &?(" + ID + r"),? ?\);", s)
     if m and "unique" in K:
         v, fmt, x, legacy, g = m.groups()
         if not fmt.endswith("{}") or "{" in fmt[:-2] or "}" in fmt[:-2]:
